@@ -275,13 +275,15 @@ def _cfgs(seed):
         "S": treeexp.make_cfg("S", seed, "narrow", copies=False, moves=False, max_containers=3),
         "S4": treeexp.make_cfg("S4", seed, "narrow", copies=False, moves=False, max_containers=4),
         "M": treeexp.make_cfg("M", seed, "narrow", copies=False, moves=False, max_containers=3, kind="mf"),
+        # a group name re-appearing deeper in the same path
+        "R": treeexp.make_cfg("R", seed, "repeat", copies=False, moves=False, max_containers=2),
     }
 
 
 def run(tier, seed):
     q = tier == "quick"
     cfgs = _cfgs(seed)
-    depths = {"S": 4 if q else 5, "S4": 4 if q else 5, "M": 4 if q else 5}
+    depths = {"S": 4 if q else 5, "S4": 4 if q else 5, "M": 4 if q else 5, "R": 2 if q else 3}
     violations = []
     fam = {}
     nck = nfol = 0
